@@ -89,6 +89,9 @@ def histories(rng, tier):
     # "any history": also under the rayon threading models, worker counts that do not divide the buffer included
     hs = regcheck.thread_mix(rng, hs, 0.3)
     hs += regcheck.threaded_core(rng, tier, sample=False)
+    # registers with a past (grown, shrunk, regrown, multiplied, measured): the same observations
+    hs += regcheck.lifecycle_histories(rng, tier, lambda r, n: [("dump",), ("abs",), ("probs",), ("measure", r.randrange(1 << (n + 1))),
+                                                                 ("dump",), ("abs",), ("probs",)])
     for k in regcheck.thread_counts()[1:3]:
         hs.append((rng.randrange(1 << 30), [("new", 4), ("threads", k)] + loop_history(rng, 40 if tier == "quick" else 400, n=4)[1:]))
     return hs
